@@ -356,3 +356,14 @@ def report_role(ctx, r, specs, what, prop_clause):
                 )
             if not rep.leaks:
                 r.ok(f"{fn.short}: role released on every normal exit", exits=sorted({f'{a}/{b}' for a, b in rep.exits_ok}))
+
+
+def completion_roles(ctx, rid):
+    """Roles in JobSubmitter._handle_completion, independent of spelling: RESULT = the local it returns (the completion
+    status), MISSING = the local handed to write_results_summary() as the list of missing jobs."""
+    hc = ctx.fn("JobSubmitter._handle_completion", rid)
+    rets = [n for n in ast.walk(hc.node) if isinstance(n, ast.Return) and isinstance(n.value, ast.Name)]
+    ws = ctx.sites(hc, short="JobSubmitter.write_results_summary")
+    if not rets or not ws or len(ws[0].node.args) < 2 or not isinstance(ws[0].node.args[1], ast.Name):
+        raise AnalysisError(rid, "_handle_completion: returned status local / missing-jobs local not recognised")
+    return hc, rets[-1].value.id, ws[0].node.args[1].id
